@@ -251,7 +251,7 @@ def last_value(resp):
 
 def run(ctx):
     rng = ctx.rng
-    nh = ctx.scale(400, 30000)
+    nh = ctx.scale(400, 8000)
     hists = []
     kind_hist = {}
     for i in range(nh):
